@@ -75,7 +75,7 @@ Proof.
       rewrite <- S' in *. split; [exact G2|exact G3]. }
   unfold step in E. destruct o; simpl in E, Ho;
     try (unfold do_create, do_set, do_get, do_mut, do_clear_attr, do_as_array, do_update, do_mut_arr, do_contains,
-           do_create_sized, do_register, do_get in E;
+           do_create_sized, do_register, do_export_shape, do_get in E;
          repeat (match type of E with context [match ?x with _ => _ end] => destruct x; try discriminate E end);
          discriminate E).
   - apply (G 1 (append_amount (tick s))); [lia| |exact E]. unfold append_amount. destruct (corner (tick s)); reflexivity.
@@ -312,6 +312,7 @@ Proof.
   - unfold do_contains. repeat (match goal with |- context [match ?x with _ => _ end] => destruct x end); simpl; lia.
   - destruct (corner t); simpl; lia.
   - unfold do_register. repeat (match goal with |- context [match ?x with _ => _ end] => destruct x end); simpl; lia.
+  - unfold do_export_shape. repeat (match goal with |- context [match ?x with _ => _ end] => destruct x end); simpl; lia.
 Qed.
 
 Lemma frame_run : forall h s a k,
@@ -431,4 +432,29 @@ Example ex_overflow :
   snd (step s (SetItem 1 0 (VScal (CI (2 ^ 63))))) = OErr EOverflow /\
   rd (fst (step s (SetItem 2 0 (VScal (CI (2 ^ 53 + 1)))))) 2 0 = Some [CF (8 * 2 ^ 53)] /\
   rd (fst (step s (SetItem 0 0 (VScal (CI (2 ^ 63 - 1)))))) 0 0 = Some [CI (2 ^ 63 - 1)].
+Proof. vm_compute. repeat split; reflexivity. Qed.
+
+(* ------------------------------------------------------------------ the shape of the exported array *)
+(* along every history, for both storages: as_array returns an array of shape (len(container), arity) without its
+   axes of length 1 (np.squeeze), of the attribute's dtype - the same shape for a sparse and for a dense attribute of
+   the same arity, in particular for containers of 0, 1 and 2 elements *)
+Theorem export_shape : forall s a at_ sh k, reachable s -> lookup a (attrs s) = Some at_ ->
+  snd (step s (ExportShape a)) = OShape sh k ->
+  sh = squeeze [sn s; asz at_] /\ k = aty at_ /\ fst (step s (ExportShape a)) = tick s.
+Proof.
+  intros s a at_ sh k Hr La E. pose proof (reachable_inv s Hr) as [_ [H1 _]]. pose proof (H1 _ _ La) as [_ [_ A3]].
+  unfold step in *. simpl in *. unfold do_export_shape in *. change (attrs (tick s)) with (attrs s) in *. rewrite La in *.
+  destruct (ast at_) as [m|ne st rows].
+  - destruct (fill_rows _ _ _ _ _); simpl in E; inversion E; subst. auto.
+  - destruct A3 as [B1 [B2 _]]. simpl in E. inversion E; subst. rewrite B2. auto.
+Qed.
+
+Example ex_export_shapes :
+  let h n k dense := repeat Append n ++ [Create 0 TFloat k dense None; ExportShape 0] in
+  let shape n k dense := last (snd (run (init false) (h n k dense))) OOther in
+  shape 0%nat 1 false = OShape [0] TFloat /\ shape 0%nat 1 true = OShape [0] TFloat /\
+  shape 1%nat 1 false = OShape [] TFloat /\ shape 1%nat 1 true = OShape [] TFloat /\
+  shape 1%nat 3 false = OShape [3] TFloat /\ shape 1%nat 3 true = OShape [3] TFloat /\
+  shape 2%nat 1 false = OShape [2] TFloat /\ shape 2%nat 3 true = OShape [2; 3] TFloat /\
+  shape 0%nat 3 false = OShape [0; 3] TFloat.
 Proof. vm_compute. repeat split; reflexivity. Qed.
